@@ -12,14 +12,18 @@ from ..yieldcount import YieldCounter, verdict
 from .common import EVALUATOR, STEP, receiver_may_be
 
 LEVEL_TEXT = (
-    "(R1) finite-model interpretation of every elitism step's iterate (helpers such as sort_population, lambdas, sorted / "
-    "sort / heapq.nlargest modelled) on four symbolic individuals with four fitness assignments (ties at the cut-off, "
-    "negatives, a minimised problem) for k = 1..4: exactly k individuals are kept, none twice, and no dropped individual is "
-    "strictly better than a kept one; (R2) in the same model every individual is handed to the evaluator before any fitness "
-    "is read; (R3) exactly k individuals for every k <= n and every iterable form (yield-count abstract interpretation + "
-    "one-shot iterator typestate); (R4) the combinators that host ElitismStep in the default step / SimpleGP / parameterless "
-    "/ adaptive builders are interpreted on four individuals and two sub-steps: every sub-step application receives the "
-    "complete population. Monotonicity of the best fitness over generations follows at run time and is not separately decided."
+    "(R1) finite-model interpretation of every elitism step's iterate (helpers such as sort_population, lambdas, "
+    "sorted / sort / heapq.nlargest modelled) on four symbolic individuals with four fitness assignments (ties at"
+    " the cut-off, negatives, a minimised problem) for k = 1..4: exactly k individuals are kept, none twice, and "
+    "no dropped individual is strictly better than a kept one; (R2) in the same model every individual is handed "
+    "to the evaluator before any fitness is read; (R3) exactly k individuals for every k <= n and every iterable "
+    "form (yield-count abstract interpretation + one-shot iterator typestate); (R4) every site where a builder "
+    "(default step, SimpleGP, parameterless, adaptive) places an ElitismStep is found through the constructor "
+    "calls: the hosting combinator is interpreted on four individuals and two sub-steps and every sub-step "
+    "application receives the complete population, and the host is not itself placed behind another step of a "
+    "SequenceStep (elitism would then only see what that step let through); fitness read through get_fitness() is"
+    " answered from a decoy table when the wrong problem is asked. Monotonicity of the best fitness over "
+    "generations follows at run time and is not separately decided."
 )
 
 
